@@ -622,7 +622,7 @@ Proof.
 Qed.
 
 (* the submodule special case: the overwrite is skipped exactly when the alias that would be created resolves to the very
-   module the existing member already resolves to *)
+   module the existing member already resolves to; a kept alias takes the line of the wildcard import that rebinds it *)
 Lemma special_case_condition fuel t top mp ms e old q :
   lookup (e_name e) ms = Some old ->
   is_alias (e_member e) && path_eqb (alias_target_path (e_member e)) (mp ++ [e_name e]) = false ->
@@ -630,7 +630,8 @@ Lemma special_case_condition fuel t top mp ms e old q :
   final fuel (set_mod t mp (mkSt ms [] None)) top old (mp ++ [e_name e]) = FMod q ->
   apply_one fuel t top mp ms e =
   if fres_eqb (final fuel (set_mod t mp (mkSt ms [] None)) top (wrap e) (mp ++ [e_name e])) (FMod q)
-  then ms else assign (e_name e) (wrap e) ms.
+  then (if is_alias old then assign (e_name e) (relineno old (e_ln e)) ms else ms)
+  else assign (e_name e) (wrap e) ms.
 Proof.
   intros El Hself Hlt Hf. unfold apply_one. rewrite Hself, El, Hlt. simpl. rewrite Hf. reflexivity.
 Qed.
@@ -704,7 +705,7 @@ Definition loaded_table (r : outcome loaded) : table := match r with Done l => l
 Definition py_table (r : pyres pytable) : pytable := match r with POk t => t | PErr _ => [] end.
 Definition is_ok {A} (r : pyres A) : bool := match r with POk _ => true | PErr _ => false end.
 
-(* F1: expand_exports returns at a package without __all__ before it visits the submodules *)
+(* former finding F1 (repaired): a package without __all__ no longer hides its submodules from expand_exports *)
 Definition w1 : list modsrc :=
   [mkSrc ["wf1"] true ["a"; "b"] [SStar 1 ["wf1"; "b"]];
    mkSrc ["wf1"; "a"] false [] [SSetAll 1 [IStr "fa"]; SDef 2 "fa" KFunc; SDef 4 "ga" KFunc];
@@ -712,19 +713,12 @@ Definition w1 : list modsrc :=
                                 SSetAll 3 [IRef "a" true; IStr "fb"]; SDef 4 "fb" KFunc]].
 Definition o1 : list path := [["wf1"; "a"]; ["wf1"; "b"]; ["wf1"]].
 
-Lemma exports_early_return_refuted :
-  exists top ms order,
-    is_ok (py_import ms order []) = true /\
-    (exists l, griffe_load top ms = Done l /\ unexpanded_unreached l <> [] /\ l_pending l = [] /\ l_dropped l = []) /\
-    agreeb top (loaded_table (griffe_load top ms)) (py_table (py_import ms order [])) = false /\
-    agreeb top (griffe_sched top ms order) (py_table (py_import ms order [])) = true.
-Proof.
-  exists "wf1", w1, o1. split; [vm_compute; reflexivity|]. split.
-  - eexists. split; [vm_compute; reflexivity|]. split; [|split]; vm_compute; congruence.
-  - split; vm_compute; reflexivity.
-Qed.
+Example exports_early_return_repaired :
+  is_ok (py_import w1 o1 []) = true /\
+  agreeb "wf1" (loaded_table (griffe_load "wf1" w1)) (py_table (py_import w1 o1 [])) = true.
+Proof. split; vm_compute; reflexivity. Qed.
 
-(* F2: __all__ assembled from the __all__ of a module reached through a re-exported module alias crashes the load *)
+(* former finding F2 (repaired): __all__ assembled from the __all__ of a module reached through a re-exported module alias crashes the load *)
 Definition w2 : list modsrc :=
   [mkSrc ["wf2"] true ["m0"; "m1"; "m2"] [SSetAll 1 []];
    mkSrc ["wf2"; "m0"] false [] [SSetAll 1 [IStr "f"]; SDef 2 "f" KFunc];
@@ -733,11 +727,10 @@ Definition w2 : list modsrc :=
                                  SSetAll 3 [IRef "x" true; IStr "g"]; SDef 4 "g" KFunc]].
 Definition o2 : list path := [["wf2"]; ["wf2"; "m0"]; ["wf2"; "m1"]; ["wf2"; "m2"]].
 
-Lemma alias_module_all_crash_refuted :
-  exists top ms order,
-    is_ok (py_import ms order []) = true /\ griffe_load top ms = Crash "AttributeError" /\
-    agreeb top (griffe_sched top ms order) (py_table (py_import ms order [])) = true.
-Proof. exists "wf2", w2, o2. repeat split; vm_compute; reflexivity. Qed.
+Example alias_module_all_repaired :
+  is_ok (py_import w2 o2 []) = true /\
+  agreeb "wf2" (loaded_table (griffe_load "wf2" w2)) (py_table (py_import w2 o2 [])) = true.
+Proof. split; vm_compute; reflexivity. Qed.
 
 (* F3: a submodule wildcard-imports its package while the package's own wildcard expansion is pending *)
 Definition w3 : list modsrc :=
@@ -749,7 +742,7 @@ Definition o3 : list path := [["wf3"; "m0"]; ["wf3"]; ["wf3"; "m1"]].
 Lemma pending_package_read_refuted :
   exists top ms order,
     is_ok (py_import ms order []) = true /\
-    (exists l, griffe_load top ms = Done l /\ l_pending l <> [] /\ unexpanded_unreached l = [] /\ l_dropped l = []) /\
+    (exists l, griffe_load top ms = Done l /\ l_pending l <> [] /\ l_dropped l = []) /\
     agreeb top (loaded_table (griffe_load top ms)) (py_table (py_import ms order [])) = false /\
     agreeb top (griffe_sched top ms order) (py_table (py_import ms order [])) = true.
 Proof.
@@ -828,7 +821,7 @@ Definition o8 : list path := [["wf8"]; ["wf8"; "m0"]; ["wf8"; "m1"]; ["wf8"; "m2
 Lemma dropped_export_source_refuted :
   exists top ms order,
     is_ok (py_import ms order []) = true /\
-    (exists l, griffe_load top ms = Done l /\ l_dropped l <> [] /\ l_pending l = [] /\ unexpanded_unreached l = []) /\
+    (exists l, griffe_load top ms = Done l /\ l_dropped l <> [] /\ l_pending l = []) /\
     agreeb top (loaded_table (griffe_load top ms)) (py_table (py_import ms order [])) = false /\
     agreeb top (griffe_sched top ms order) (py_table (py_import ms order [])) = true.
 Proof.
@@ -1119,7 +1112,7 @@ Qed.
 
 End Step.
 
-(* F9: the submodule special case keeps the older line number *)
+(* former finding F9 (repaired): a member kept by the submodule special case takes the line of the wildcard that rebinds it *)
 Definition w9 : list modsrc :=
   [mkSrc ["wf9"] true ["a"; "c"; "x"; "y"] [];
    mkSrc ["wf9"; "a"] false [] [SDef 1 "g" KFunc];
@@ -1128,26 +1121,11 @@ Definition w9 : list modsrc :=
    mkSrc ["wf9"; "c"] false [] [SImport 1 ["wf9"; "a"] (Some "f"); SStar 2 ["wf9"; "x"]; SStar 3 ["wf9"; "y"]; SStar 4 ["wf9"; "x"]]].
 Definition o9 : list path := [["wf9"]; ["wf9"; "a"]; ["wf9"; "x"]; ["wf9"; "y"]; ["wf9"; "c"]].
 
-Lemma special_case_lineno_refuted :
-  exists top ms order,
-    is_ok (py_import ms order []) = true /\
-    (exists l, griffe_load top ms = Done l /\ l_special l <> [] /\ l_pending l = [] /\ l_dropped l = [] /\
-               unexpanded_unreached l = [] /\ l_xpending l = []) /\
-    (forall m, In m ms -> increasing (ms_body m)) /\
-    agreeb top (loaded_table (griffe_load top ms)) (py_table (py_import ms order [])) = false /\
-    agreeb top (griffe_sched top ms order) (py_table (py_import ms order [])) = false.
-Proof.
-  exists "wf9", w9, o9. split; [vm_compute; reflexivity|]. split.
-  - eexists. split; [vm_compute; reflexivity|]. repeat split; vm_compute; congruence.
-  - split; [|split; vm_compute; reflexivity].
-    intros m Hm l1 s1 l2 s2 l3 E. simpl in Hm.
-    destruct Hm as [Hm|[Hm|[Hm|[Hm|[Hm|[]]]]]]; subst m; simpl in E;
-      repeat (destruct l1 as [|? l1]; simpl in E; try discriminate);
-      inversion E; subst;
-      repeat (destruct l2 as [|? l2]; simpl in *; try discriminate);
-      try (match goal with H : _ = _ :: _ |- _ => inversion H; subst; simpl; lia end);
-      try (match goal with H : [] = _ ++ _ :: _ |- _ => destruct l2; discriminate end).
-Qed.
+Example special_case_lineno_repaired :
+  is_ok (py_import w9 o9 []) = true /\
+  agreeb "wf9" (loaded_table (griffe_load "wf9" w9)) (py_table (py_import w9 o9 [])) = true /\
+  agreeb "wf9" (griffe_sched "wf9" w9 o9) (py_table (py_import w9 o9 [])) = true.
+Proof. repeat split; vm_compute; reflexivity. Qed.
 
 (* F10: expand_exports reaches a submodule while a module it names is still being expanded *)
 Definition w10 : list modsrc :=
@@ -1160,7 +1138,7 @@ Definition o10 : list path := [["wf10"; "s"]; ["wf10"; "m1"]; ["wf10"]; ["wf10";
 Lemma exports_pending_read_refuted :
   exists top ms order,
     is_ok (py_import ms order []) = true /\
-    (exists l, griffe_load top ms = Done l /\ l_xpending l <> [] /\ l_dropped l = [] /\ unexpanded_unreached l = []) /\
+    (exists l, griffe_load top ms = Done l /\ l_xpending l <> [] /\ l_dropped l = []) /\
     agreeb top (loaded_table (griffe_load top ms)) (py_table (py_import ms order [])) = false /\
     agreeb top (griffe_sched top ms order) (py_table (py_import ms order [])) = true.
 Proof.
